@@ -32,7 +32,7 @@ CHECKS = {
    technique="property-based testing: serialise/deserialise round-trip oracle with bit-exact comparison"),
 
  "C11": dict(level="fault_enumeration", design="4/C11",
-   text="Exhaustive fault enumeration over 40 rendered LEF texts (with and without lexical variation / non-ASCII comments) and the repository's macro.lef: every prefix at every character boundary, every single-token fault (delete, duplicate, swap, replace by some 70 keywords, numbers, literals and names incl. the extremes of the 96-bit decimal type/punctuation/unterminated string) at every token; floods of 50 000 copies of a token or phrase read on a 2 MB stack; every BUSBITCHARS / DIVIDERCHAR declaration (ordinary, reversed, doubled, multi-byte, empty) against every pin-name shape, the statement before or after the macro (748 texts, sub-check header-statements); proptest-driven insertion of multi-byte, odd-whitespace (VT, NEL, NBSP, EM SPACE, BOM, NUL) and delimiter characters anywhere; token soup with arbitrary Unicode scalars. Oracle: LefLibrary::open returns, also on its error-report path (panics caught in-process, aborts/hangs by the supervising process with CPU limit); an Ok library can be written and re-read without a crash; allocation at most doubles when the input doubles.",
+   text="Exhaustive fault enumeration over 40 rendered LEF texts (with and without lexical variation / non-ASCII comments) and the repository's macro.lef: every prefix at every character boundary, every single-token fault (delete, duplicate, swap, replace by some 70 keywords, numbers, literals and names incl. the extremes of the 96-bit decimal type/punctuation/unterminated string) at every token; floods of 50 000 copies of a token or phrase read on a 2 MB stack; every BUSBITCHARS / DIVIDERCHAR declaration (ordinary, reversed, doubled, multi-byte, empty) against every pin-name shape, the statement before or after the macro (748 texts, sub-check header-statements); a dozen rarely used statements (DENSITY, PROPERTYDEFINITIONS of every object type, antenna and port attributes, generated vias, sites, units), whole and with every single token dropped or doubled (sub-check rare-statements); proptest-driven insertion of multi-byte, odd-whitespace (VT, NEL, NBSP, EM SPACE, BOM, NUL) and delimiter characters anywhere; token soup with arbitrary Unicode scalars. Oracle: LefLibrary::open returns, also on its error-report path (panics caught in-process, aborts/hangs by the supervising process with CPU limit); an Ok library can be written and re-read without a crash; allocation at most doubles when the input doubles.",
    note="Termination = returns before the 30 s in-flight watchdog / 20 s CPU in isolation; linear time checked on allocation volume and on thread CPU time (n vs 16n).",
    technique="fault enumeration + property-based mutation; crash/hang oracle via supervised child processes"),
  "C16": dict(level="exploration", design="4/C16",
@@ -51,7 +51,7 @@ CHECKS = {
 
  "C06": dict(level="exploration", design="4/C06",
    text="Seeded proptest search over hierarchical GDSII libraries (1-5 structs in shuffled order; rectangles cw/ccw, histogram/45-degree/star/near-rectangle/small-grid polygons, boxes, paths; SREFs in all eight orientations; AREFs with literal axis-parallel, rotated and skewed lattices up to 300x300; labels on vertices, edges, inside, outside, other layers, mixed case). Oracle: an independent flattener under GDSII semantics (reflect, rotate ccw, translate; lattice expansion) and exact point-in-shape decide per cell the shapes with nets, the annotations and the flattened multiset per (layer, datatype). Malformed hierarchies (dangling, cyclic, self reference, zero rows/cols, empty boundary) must be errors.",
-   note="An import error on a well-formed library is allowed by the statement (counted as refused). MAG != 1, absolute flags, nodes, two different labels on one shape not generated.",
+   note="An import error on a well-formed library is allowed by the statement (counted as refused). MAG != 1, absolute flags and nodes are not generated. Two labels of different names inside one shape are generated in the sub-check shorted-labels only, where which of the names the shape takes is left open (it must be one of them, and none of those labels may survive as an annotation).",
    technique="property-based testing against an independent reference flattener and exact geometry (differential oracle)"),
  "C07": dict(level="exploration", design="4/C07",
    text="Seeded proptest search over raw layout libraries (cell DAGs in shuffled order, eight instance orientations, rectangles, U/L/histogram/45-degree/star/trapezoid polygons, Manhattan paths, nets, many layers/purposes incl. purposes sharing a number, abstract views beside layouts, empty cells, all four units): export to GDSII must succeed (the documented label-search refusal is accepted only when none of its candidates lies inside the polygon), exported paths keep exactly their points and every emitted label lies in its shape (exact geometry on the GDSII itself), and re-import gives per cell the same multisets of shapes (layer number, purpose number, points, width, lower-cased net) and instances (target, location, reflection, angle) and the same units; a second sub-check does the same on chains of 30-200 nested cells (with leaves shared between neighbouring levels) listed top-down, bottom-up or shuffled. Every main sub-check also runs as a `-fresh-thread` twin (each case in a newly spawned thread).",
